@@ -51,11 +51,12 @@ static std::vector<PopRec> execute(const Plan& pl, const V3& shift, RunResult& r
 }
 
 // "" if B is A translated by t, else a description; sets iteration index
-static std::string compare(const std::vector<PopRec>& A, const std::vector<PopRec>& B, const V3& t, double L, double K, size_t& at) {
-    std::ostringstream e; double tn = t.norm();
+static std::string compare(const std::vector<PopRec>& A, const std::vector<PopRec>& B, const V3& t, double L, double K, size_t& at, double far = -1) {
+    std::ostringstream e; double tn = far >= 0 ? far : t.norm();     // far: distance from the origin at which both runs live (two copies of a translated run)
     if (A.size() != B.size()) { at = std::min(A.size(), B.size()); e << "runs stopped after " << A.size() << " and " << B.size() << " iterations"; return e.str(); }
     double tolx = 1e-7 * L + 64 * 2.2e-16 * (tn + L) + 2000 * L * 2.2e-16 * std::pow(tn / L, 3) * (1 + A.size() / 10.0);   // last term: the code sums volume terms about the origin
     double relv = 1e-7 + 4000 * 2.2e-16 * std::pow(1 + tn / L, 3);
+    if (getenv("W14_ERR")) for (size_t i = 0; i < A.size() && i < B.size(); i++) { double mx = 0; if (A[i].size() == B[i].size()) for (size_t c = 0; c < A[i].size(); c++) if (A[i][c].pos.size() == B[i][c].pos.size()) for (size_t n = 0; n < A[i][c].pos.size(); n++) if (A[i][c].used[n]) mx = std::max(mx, (B[i][c].pos[n] - t - A[i][c].pos[n]).norm()); fprintf(stderr, "ERR iteration %zu max deviation %.3g (%.3g of the cubic unit L eps (t/L)^3)\n", i + 1, mx, mx / (L * 2.2e-16 * std::pow(tn / L, 3))); }
     for (size_t i = 0; i < A.size(); i++) {
         at = i + 1;
         if (A[i].size() != B[i].size()) { e << "cell count " << A[i].size() << " vs " << B[i].size(); return e.str(); }
@@ -113,7 +114,10 @@ RunResult run_w14(const Plan& pl) {
         // coupling partners at a junction of three cells, say) cannot be judged. Such a trajectory also diverges from itself
         // when the input is re-rounded, i.e. moved by 1e-13..1e-10 L (far below any tolerance of the code); twelve such runs are tried.
         bool unstable = false;
-        if (!e2.empty()) { sim::Rng rp((uint64_t)pl.get("shift_seed", 1) * 31 + 7); for (int k = 0; k < 12 && !unstable; k++) { V3 tp = random_unit(rp) * (std::pow(10.0, -13 + (k % 4)) * L * rp.uni(0.5, 2)); std::vector<PopRec> P = execute(pl, tp, res, false); size_t atp = 0; if (!compare(A, P, tp, L, 2.5e3, atp).empty() && atp <= std::max(at1, at2)) unstable = true; } }
+        if (!e2.empty()) { sim::Rng rp((uint64_t)pl.get("shift_seed", 1) * 31 + 7); for (int k = 0; k < 12 && !unstable; k++) { V3 tp = random_unit(rp) * (std::pow(10.0, -13 + (k % 4)) * L * rp.uni(0.5, 2)); std::vector<PopRec> P = execute(pl, tp, res, false); size_t atp = 0; if (!compare(A, P, tp, L, 2.5e3, atp).empty() && atp <= std::max(at1, at2)) unstable = true; }
+            // the same question for the translated run: the code sums volumes about the origin, so far from it the rounding it is sensitive to is (|t|/L)^3 times larger;
+            // two copies of the translated run that differ by a re-rounding must agree with each other as well as the translated run is asked to agree with the reference
+            for (int k = 0; k < 6 && !unstable; k++) { V3 tp = random_unit(rp) * (std::pow(10.0, -12 + (k % 3)) * (L + t1.norm()) * rp.uni(0.5, 2)); std::vector<PopRec> P = execute(pl, t1 + tp, res, false); size_t atp = 0; if (!compare(B, P, tp, L, 2.5e3, atp, t1.norm()).empty() && atp <= at1) { unstable = true; res.probes.hit("rounding_unstable_far_from_origin"); } } }
         if (unstable) { res.probes.hit("rounding_unstable_discarded"); res.nontrivial = false; }
         else if (!e2.empty()) { std::ostringstream d; d << "after iteration " << at1 << " with translation (" << t1.x << "," << t1.y << "," << t1.z << "): " << e1 << "; confirmed with an independent translation of the same class after iteration " << at2 << ": " << e2; res.fail("C14", "translation", d.str()); }
         else res.probes.hit("mismatch_not_confirmed");
